@@ -50,11 +50,11 @@ pub uninterp spec fn writer_mutex(s: &ArcSwap<Vec<(IpAddr, Arc<RtrMetricsData>)>
 pub open spec fn sorted_strict(v: Seq<(IpAddr, Arc<RtrMetricsData>)>) -> bool {
     forall|i: int, j: int| 0 <= i < j < v.len() ==> ip_key(#[trigger] v[i].0) < ip_key(#[trigger] v[j].0)
 }
-// n is v with one pair inserted at position k; all pairs of v are kept as they are
-pub open spec fn is_insert(v: Seq<(IpAddr, Arc<RtrMetricsData>)>, n: Seq<(IpAddr, Arc<RtrMetricsData>)>, k: int) -> bool {
-    &&& 0 <= k <= v.len() && n.len() == v.len() + 1
+// n is v with the pair e inserted at position k; all pairs of v are kept as they are
+pub open spec fn is_insert(v: Seq<(IpAddr, Arc<RtrMetricsData>)>, n: Seq<(IpAddr, Arc<RtrMetricsData>)>, k: int, e: (IpAddr, Arc<RtrMetricsData>)) -> bool {
+    &&& 0 <= k <= v.len() && n.len() == v.len() + 1 && n[k] == e
     &&& forall|i: int| 0 <= i < k ==> #[trigger] n[i] == v[i]
-    &&& forall|i: int| k <= i < v.len() ==> n[i + 1] == #[trigger] v[i]
+    &&& forall|j: int| k < j < n.len() ==> #[trigger] n[j] == v[j - 1]
 }
 
 impl<T> Mutex<T> {
@@ -82,27 +82,114 @@ impl ArcSwap<Vec<(IpAddr, Arc<RtrMetricsData>)>> {
             // C36: what is stored is sorted and duplicate free ...
             sorted_strict(new@),
             // C36: ... and is a loaded list plus exactly one pair: no address is lost or replaced
-            exists|v: Seq<(IpAddr, Arc<RtrMetricsData>)>, k: int| #[trigger] was_loaded(self, v) && #[trigger] is_insert(v, new@, k),
+            exists|v: Seq<(IpAddr, Arc<RtrMetricsData>)>, k: int| #[trigger] was_loaded(self, v) && is_insert(v, new@, k, #[trigger] new@[k]),
         ensures
             forall|i: int| 0 <= i < new@.len() ==> has_entry(self, (#[trigger] new@[i]).0, new@[i].1),
     { unimplemented!() }
 }
 
-// ---- <[T]>::binary_search_by (std), ASSUMED, stated through the comparator's own contract:
+// ---- <[T]>::binary_search_by (std), ASSUMED, stated through the comparator's own contract.
+// A comparator closure verified by Verus terminates and does not panic, so it has a result for
+// every argument satisfying its `requires`; `result_of` names it (ASSUMED).
 // Ok(i): the comparator answers Equal for element i. Err(i): if the comparator's answers are
 // monotone along the slice (Less <= Equal <= Greater, i.e. the slice is sorted for it), i is the
 // partition point: Less before i, Greater from i on.
 pub open spec fn ord_rank(o: Ordering) -> int {
     match o { Ordering::Less => 0, Ordering::Equal => 1, Ordering::Greater => 2 }
 }
+pub uninterp spec fn result_of<T, F>(f: F, x: &T) -> Ordering;
+pub broadcast axiom fn axiom_comparator_total<T, F: FnMut(&T) -> Ordering>(f: F, x: &T)
+    ensures f.requires((x,)) ==> f.ensures((x,), #[trigger] result_of(f, x));
 pub assume_specification<'a, T, F> [ <[T]>::binary_search_by ] (s: &'a [T], f: F) -> (r: Result<usize, usize>)
     where F: FnMut(&'a T) -> Ordering,
     ensures
         r matches Ok(i) ==> i < s@.len() && f.ensures((&s@[i as int],), Ordering::Equal),
         r matches Err(i) ==> i <= s@.len(),
-        (forall|j: int, k: int, o1: Ordering, o2: Ordering| 0 <= j < k < s@.len()
-            && #[trigger] f.ensures((&s@[j],), o1) && #[trigger] f.ensures((&s@[k],), o2) ==> ord_rank(o1) <= ord_rank(o2))
+        (forall|j: int, k: int| 0 <= j < k < s@.len() ==> ord_rank(#[trigger] result_of(f, &s@[j])) <= ord_rank(#[trigger] result_of(f, &s@[k])))
         ==> (r matches Err(i) ==>
-                (forall|j: int, o: Ordering| 0 <= j < i && #[trigger] f.ensures((&s@[j],), o) ==> o == Ordering::Less)
-             && (forall|j: int, o: Ordering| i <= j < s@.len() && #[trigger] f.ensures((&s@[j],), o) ==> o == Ordering::Greater)),
+                (forall|j: int| 0 <= j < i ==> result_of(f, &#[trigger] s@[j]) == Ordering::Less)
+             && (forall|j: int| i <= j < s@.len() ==> result_of(f, &#[trigger] s@[j]) == Ordering::Greater)),
 ;
+
+// Clone of a pair (IpAddr is Copy, Arc::clone yields the same Arc): the same pair. ASSUMED
+// (Verus has no specification for the built-in tuple Clone).
+pub broadcast axiom fn axiom_pair_clone(a: (IpAddr, Arc<RtrMetricsData>), b: (IpAddr, Arc<RtrMetricsData>))
+    ensures #[trigger] cloned(a, b) ==> a == b;
+
+// `Vec<T>::into()` for Arc<Vec<T>> (std `From<T> for Arc<T>`): moves the vector into a new Arc.
+#[verifier::external_body]
+pub fn vec_into_arc<T>(v: Vec<T>) -> (r: Arc<Vec<T>>) ensures r@ == v@ { unimplemented!() }
+
+// ---- connection counting
+#[verifier::external_body] pub struct TcpStream { _opaque: () }
+#[verifier::external_body] pub struct SocketAddr { _opaque: () }
+#[verifier::external_body] pub struct TlsAcceptor { _opaque: () }
+#[verifier::external_body] pub struct MaybeTlsTcpStream { _opaque: () }
+#[verifier::external_body] pub struct IoError { _opaque: () }
+#[derive(Clone, Copy)]
+#[verifier::external_body] pub struct Duration { _opaque: () }
+impl SocketAddr {
+    pub uninterp spec fn ip_spec(&self) -> IpAddr;
+    #[verifier::external_body] pub fn ip(&self) -> (r: IpAddr) ensures r == self.ip_spec() { unimplemented!() }
+}
+impl MaybeTlsTcpStream {
+    #[verifier::external_body] pub fn new(sock: TcpStream, tls: Option<&TlsAcceptor>) -> Self { unimplemented!() }
+}
+impl RtrStream {
+    // socket options; may fail (the kernel rejects the keepalive time)
+    #[verifier::external_body] fn set_keepalive(sock: &TcpStream, duration: Duration) -> Result<(), IoError> { unimplemented!() }
+}
+// Monotone ghost facts: the open-connection counter of this metrics record has been
+// incremented / decremented by this call (AtomicUsize fetch_add / fetch_sub).
+pub uninterp spec fn conn_incremented(m: &RtrMetricsData) -> bool;
+pub uninterp spec fn conn_decremented(m: &RtrMetricsData) -> bool;
+impl RtrMetricsData {
+    #[verifier::external_body]
+    pub fn inc_current_connections(&self) ensures conn_incremented(self) { unimplemented!() }
+    #[verifier::external_body]
+    pub fn dec_current_connections(&self) ensures conn_decremented(self) { unimplemented!() }
+}
+
+// ---- std functions without a vstd specification (ASSUMED; their std definitions). Declared so
+// that a change of the code to one of these combinators is verified instead of rejected.
+pub assume_specification<T: Ord + core::marker::Destruct> [std::cmp::max] (a: T, b: T) -> (r: T)
+    ensures <T as vstd::std_specs::cmp::OrdSpec>::obeys_cmp_spec() ==> r == (if vstd::std_specs::cmp::OrdSpec::cmp_spec(&a, &b) == std::cmp::Ordering::Greater { a } else { b });
+pub assume_specification<T: Ord + core::marker::Destruct> [std::cmp::min] (a: T, b: T) -> (r: T)
+    ensures <T as vstd::std_specs::cmp::OrdSpec>::obeys_cmp_spec() ==> r == (if vstd::std_specs::cmp::OrdSpec::cmp_spec(&a, &b) == std::cmp::Ordering::Greater { b } else { a });
+pub assume_specification<T> [bool::then_some] (b: bool, t: T) -> (r: Option<T>)
+    ensures r == (if b { Some(t) } else { None::<T> });
+pub assume_specification<T, U> [Option::<T>::and] (a: Option<T>, b: Option<U>) -> (r: Option<U>)
+    ensures r == (if a is Some { b } else { None::<U> });
+pub assume_specification<T> [Option::<T>::or] (a: Option<T>, b: Option<T>) -> (r: Option<T>)
+    ensures r == (if a is Some { a } else { b });
+pub assume_specification<T> [Option::<T>::xor] (a: Option<T>, b: Option<T>) -> (r: Option<T>)
+    ensures r == (if a is Some && b is None { a } else if a is None && b is Some { b } else { None::<T> });
+pub assume_specification<T, U> [Option::<T>::zip] (a: Option<T>, b: Option<U>) -> (r: Option<(T, U)>)
+    ensures r == (if a is Some && b is Some { Some((a->Some_0, b->Some_0)) } else { None::<(T, U)> });
+pub assume_specification<T> [Option::<T>::replace] (a: &mut Option<T>, v: T) -> (r: Option<T>)
+    ensures r == *old(a), *final(a) == Some(v);
+pub assume_specification<T, F: FnOnce(T) -> bool> [Option::<T>::is_some_and] (a: Option<T>, f: F) -> (r: bool)
+    requires a is Some ==> f.requires((a->Some_0,)),
+    ensures a is None ==> !r, a is Some ==> f.ensures((a->Some_0,), r);
+pub assume_specification<T, U, F: FnOnce(T) -> U> [Option::<T>::map_or] (a: Option<T>, default: U, f: F) -> (r: U)
+    requires a is Some ==> f.requires((a->Some_0,)),
+    ensures a is None ==> r == default, a is Some ==> f.ensures((a->Some_0,), r);
+pub assume_specification<T, P: FnOnce(&T) -> bool> [Option::<T>::filter] (a: Option<T>, p: P) -> (r: Option<T>)
+    requires a is Some ==> p.requires((&a->Some_0,)),
+    ensures a is None ==> r is None, r is Some ==> r == a,
+            a is Some ==> (p.ensures((&a->Some_0,), true) ==> r == a) && (p.ensures((&a->Some_0,), false) ==> r is None);
+pub assume_specification<T, E, U, F: FnOnce(T) -> Result<U, E>> [Result::<T, E>::and_then] (a: Result<T, E>, f: F) -> (r: Result<U, E>)
+    requires a is Ok ==> f.requires((a->Ok_0,)),
+    ensures a is Err ==> r == Err::<U, E>(a->Err_0), a is Ok ==> f.ensures((a->Ok_0,), r);
+pub assume_specification<T, E, U> [Result::<T, E>::and] (a: Result<T, E>, b: Result<U, E>) -> (r: Result<U, E>)
+    ensures r == (if a is Ok { b } else { Err::<U, E>(a->Err_0) });
+pub assume_specification<T, E, F> [Result::<T, E>::or] (a: Result<T, E>, b: Result<T, F>) -> (r: Result<T, F>)
+    ensures r == (if a is Ok { Ok::<T, F>(a->Ok_0) } else { b });
+pub assume_specification<T, E, F: FnOnce(T) -> bool> [Result::<T, E>::is_ok_and] (a: Result<T, E>, f: F) -> (r: bool)
+    requires a is Ok ==> f.requires((a->Ok_0,)),
+    ensures a is Err ==> !r, a is Ok ==> f.ensures((a->Ok_0,), r);
+pub assume_specification<T, E> [Result::<T, E>::unwrap_or] (a: Result<T, E>, default: T) -> (r: T)
+    ensures r == (if a is Ok { a->Ok_0 } else { default });
+pub assume_specification<T, E, F: FnOnce(E) -> T> [Result::<T, E>::unwrap_or_else] (a: Result<T, E>, f: F) -> (r: T)
+    requires a is Err ==> f.requires((a->Err_0,)),
+    ensures a is Ok ==> r == a->Ok_0, a is Err ==> f.ensures((a->Err_0,), r);
